@@ -33,6 +33,10 @@ H(prop="C20", name="c20_metavar_spelling_n5", crate="core-h", module="c20_metava
   decides="extract_meta_var(s,'$') == specification table, for every s",
   functions=["ast_grep_core::meta_var::extract_meta_var"],
   shape="STR", bounds="all strings <= 5 bytes over {$,A,Z,a,0,_}; unwind 7")
+H(prop="C20", name="c20_metavar_spelling_n9", crate="core-h", module="c20_metavar", tier="thorough", timeout=3600, mem_gb=20,
+  decides="extract_meta_var(s,'$') == specification table, for every s",
+  functions=["ast_grep_core::meta_var::extract_meta_var"],
+  shape="STR", bounds="all strings <= 9 bytes over {$,A,Z,a,0,_}; unwind 11")
 H(prop="C20", name="c20_metavar_spelling_n7", crate="core-h", module="c20_metavar", tier="thorough",
   decides="extract_meta_var(s,'$') == specification table, for every s",
   functions=["ast_grep_core::meta_var::extract_meta_var"],
@@ -343,6 +347,10 @@ H(prop="C05", name="c05k_nth_child_position_n4", crate="config-h", module="c05_n
              "ast_grep_config::rule::nth_child::FunctionalPosition::is_matched", "ast_grep_core::node::Node::parent", "ast_grep_core::node::Node::children"],
   shape="ANY(4)", bounds="every tree with <= 4 nodes (symbolic shape, kinds, named flags), every node; A in [-2,2], B in [-2,4], reverse symbolic; unwind 10")
 
+H(prop="C05", name="c05k_nth_child_position_n5", crate="config-h", module="c05_nth", features=["hooks"], timeout=3600, mem_gb=30, stubbing=True, tier="thorough", assumes=[ST_TS, ST_REGEX],
+  decides="NthChild (no ofRule) matches node X <=> X is named, has a parent, and its 1-based position among the parent's named children (from the end when reverse) is A*m+B for some m >= 0",
+  functions=["ast_grep_config::rule::nth_child::NthChild::match_node_with_env", "ast_grep_config::rule::nth_child::NthChild::find_index"],
+  shape="ANY(5)", bounds="every tree with <= 5 nodes (symbolic shape, kinds, named flags), every node; A in [-2,2], B in [-2,4], reverse symbolic; unwind 10")
 H(prop="C05", name="c05k_nth_child_of_rule_n4", crate="config-h", module="c05_nth", features=["hooks", "n4"], timeout=1800, mem_gb=20, stubbing=True, recursion=REC_RULE, assumes=[ST_TS, ST_REGEX],
   decides="NthChild with ofRule {kind: number} matches node X <=> X is a named `number` child and its 1-based position among the parent's named `number` children (from the end when reverse) is A*m+B for some m >= 0",
   functions=["ast_grep_config::rule::nth_child::NthChild::match_node_with_env", "ast_grep_config::rule::nth_child::NthChild::find_index", "ast_grep_config::rule::Rule::match_node_with_env"],
